@@ -5,6 +5,7 @@ CONSTANTS
   InitRestated = TRUE
   OriginFromSuper = TRUE
   AllowModifyBusy = FALSE
+  SigCheck = FALSE
   Parent <- Chain3
   Mode = "shape"
   QSels = {{}}
